@@ -18,6 +18,8 @@ import Desverif.Proofs.ExecMeasure
 import Desverif.Proofs.ExecTime
 import Desverif.Proofs.ExecPotential
 import Desverif.Proofs.ExecSim
+import Desverif.Proofs.ExecRefine
+import Desverif.Proofs.ExecOrder
 import Desverif.Proofs.ExecExamples
 namespace C06
 open Exec
@@ -138,6 +140,34 @@ theorem no_await_observes_later_time (P : Params) (hL : 1 ≤ P.L) (hE : 1 ≤ P
   runSim_onTime P hL hE hC fuel evs [] none s (pend_of_quiet s hq) ho
     ⟨fun tm htm => by rw [ht] at htm; simp at htm, fun w0 h => by simp at h⟩
 
+/-- The specification `ExecSpec.accept` - the acceptance check the driver applies to the implementation's history -
+accepts every history of the model whose polls all make an observation and whose observations after an own event
+are not stamped with that event's instant (`GoodRun`, decidable): for all scripts, event sequences (own messages,
+consumed messages, timer wake-ups, other modules' events) and budgets of at least one poll. -/
+theorem spec_accepts_good_run (P : Params) (hL : 1 ≤ P.L) (hE : 1 ≤ P.E) (hC : 1 ≤ P.C)
+    (n : Nat) (evs : List Ev) (m : St) (hg : GoodRun P n evs [] none m) :
+    ExecSpec.accept P n evs [] none ((hist (runSim P false n evs [] none m)).drop (hist m).length) 0 m = .ok := by
+  obtain ⟨Δ, hΔ⟩ := runSim_grows P n evs [] none m
+  refine accept_model P hL hE hC n evs [] none m m 0 _ (sim_refl m) hg ?_
+  rw [hΔ, List.drop_left]
+
+/-- Model refines specification: started with nothing runnable, and external messages (own and other modules')
+arriving at strictly increasing instants, every history of the model is accepted by `ExecSpec.accept` - so what
+the driver's acceptance check demands of the implementation is met by the model the other theorems are about.
+One hypothesis on the run remains, hence `_partial`: `NoSilent`, every poll makes an observation (ghost counter
+`St.silent`).  The one poll that does not is that of a task which the cooperative budget (128) deferred at an await
+that cannot complete: it registers there when polled again; the specification sees only observations and cannot
+place that poll among the others (it performs it at the end of the event, which is accepted whenever the order of
+registration does not matter - evidence key `silentpolls`). -/
+theorem spec_accepts_model_partial (P : Params) (hL : 1 ≤ P.L) (hE : 1 ≤ P.E) (hC : 1 ≤ P.C)
+    (n : Nat) (evs : List Ev) (m : St) (hq : Quiet m) (ho : OnTime m) (ht : m.timers = [])
+    (hsorted : Sorted evs) (hns : NoSilent P n evs [] none m) :
+    ExecSpec.accept P n evs [] none ((hist (runSim P false n evs [] none m)).drop (hist m).length) 0 m = .ok := by
+  refine spec_accepts_good_run P hL hE hC n evs m ?_
+  refine goodRun_of_sorted P hL hE hC n 0 evs [] none m ?_ hns
+  exact ⟨pend_of_quiet m hq, ho, ⟨fun tm htm => by rw [ht] at htm; simp at htm, fun w0 h => by simp at h⟩,
+    hsorted, fun e _ => Nat.zero_le _, fun w hw => by simp at hw⟩
+
 /-! ### witnesses: one pass per event leaves work behind -/
 
 /-- F4 (tokio's default `event_interval` = 61, one pass): 62 ready `tokio::spawn` tasks, one is left behind. -/
@@ -221,6 +251,19 @@ example : ((runSim tokioParams false 9 [{ time := 1, prog := [.spawn 2, .spawn 1
     chainState).log.map fun x => (x.idx, x.time)) = [(2, 3), (1, 3), (1, 1), (2, 1)] := by decide +kernel
 
 example : 1 ≤ tokioParams.L ∧ 1 ≤ tokioParams.E ∧ 1 ≤ tokioParams.C := by decide
+
+-- a run with timers, a runtime → local wake and a relative sleep is a `GoodRun` / has no silent poll
+example : GoodRun tokioParams 9 [{ time := 1, prog := [.spawn 1, .spawn 0] }] [] none timerChain := by
+  decide +kernel
+
+example : NoSilent tokioParams 9 [{ time := 1, prog := [.spawn 1, .spawn 0] }] [] none timerChain ∧
+    Sorted [({ time := 1, prog := [.spawn 1, .spawn 0] } : Ev)] := by
+  decide +kernel
+
+-- a run with a cross-module wake and several waiters is a `GoodRun`
+example : GoodRun tokioParams 9 [{ time := 1, prog := [.spawn 0, .spawn 1, .spawn 2] },
+    { time := 3, prog := [.wake 0], foreign := true }, { time := 4, prog := [.notifyAll 0] }] [] none waitersState := by
+  decide +kernel
 
 example : Quiet timerChain ∧ OnTime timerChain ∧ timerChain.timers = [] :=
   ⟨by decide, fun x hx => by simp [timerChain] at hx, rfl⟩
